@@ -660,6 +660,7 @@ def r08c(P, R):
                         "%s slices a string with bounds counted by chars().enumerate(): with a multi-byte character before the identifier the "
                         "bound is not a char boundary (panic) or the slice is the wrong text" % f.path, loc=f.loc())
     R.floor("R08-c", "string slice sites", nslices, 2)
+    _same_string_offsets(P, R)
     # skip_chars: byte offset from len_utf8
     sk = P.fn("nitrogql_utils::chars::skip_chars")
     ms = [c["method"] for c in sk.walk() if c.get("k") == "MethodCall"]
@@ -688,6 +689,125 @@ def r08c(P, R):
     bad = [k for k, kind, what, line, node in site_keys(pc)]
     R.check("R08-c", "config-parse-total", not bad, "parse_config has no panic site (invalid YAML => None => Validation error)",
             "parse_config can panic on configuration text: %s" % bad, loc=pc.loc())
+
+
+_OFFSET_METHODS = ("find", "rfind", "char_indices", "match_indices", "rmatch_indices", "len", "position", "rposition", "len_utf8")
+
+
+def _root_local(e):
+    while isinstance(e, dict):
+        k = e.get("k")
+        if k == "Path" and "local" in e:
+            return e["local"]
+        if k == "MethodCall":
+            e = e["recv"]
+        elif k in ("AddrOf", "Unary", "DropTemps", "Field", "Index", "Cast", "Use") and "e" in e:
+            e = e["e"]
+        elif k == "Call" and e.get("args"):
+            e = e["args"][0]
+        else:
+            return None
+    return None
+
+
+def _offset_sources(P, fn, pv, bound, depth=0, seen=None):
+    """root locals of the strings on which the byte offsets feeding `bound` were computed (through local bindings, closures over
+    collections and workspace helpers that take a &str and return indices)"""
+    seen = seen if seen is not None else set()
+    out = set()
+    todo = [bound]
+    while todo:
+        e = todo.pop()
+        for y in subnodes(e):
+            k = y.get("k")
+            if k == "MethodCall" and y["method"] in _OFFSET_METHODS and ("str" in str(y.get("recv_ty", "")) or "String" in str(y.get("recv_ty", ""))
+                                                                         or "Chars" in str(y.get("recv_ty", "")) or "CharIndices" in str(y.get("recv_ty", ""))):
+                r = _root_local(y["recv"])
+                if r is not None:
+                    out.add(r)
+            elif k == "Call" and (call_name(y) or "") in P.fns and y.get("args") and "str" in str(y["args"][0].get("t", "")) \
+                    and "usize" in (P.fns[call_name(y)].sig_output or ""):
+                r = _root_local(y["args"][0])
+                if r is not None:
+                    out.add(r)
+            elif k == "Path" and "local" in y and y["local"] not in seen:
+                seen.add(y["local"])
+                for src, _ in pv.src.get(y["local"], []):
+                    if src is not None and not (src.get("k") == "Tup" and src.get("t") == "()"):
+                        todo.append(src)
+    return out
+
+
+def _same_string_offsets(P, R):
+    """A byte offset is only a valid cut point of the string it was computed on.  Wherever a `&str` is sliced or split at an offset,
+    the offset-producing operations behind the bound (`find`, `char_indices`, `len`, a helper from &str to indices, ...) must have been
+    applied to that same string; an offset computed on *another* string (the minimum indentation of the neighbouring lines, say) is
+    not a char boundary here as soon as the two strings differ in multi-byte characters."""
+    n = 0
+    for f in P.fns.values():
+        if "::tests" in f.path or f.derived or f.crate == "selfcheck":
+            continue
+        pv = None
+        for x in f.walk():
+            recv = bound = None
+            if x.get("k") == "Index" and ("str" in str(x["e"].get("t", "")) or "String" in str(x["e"].get("t", ""))) and "Vec<" not in str(x["e"].get("t", "")):
+                recv, bound = x["e"], x["idx"]
+            elif x.get("k") == "MethodCall" and x["method"] in ("split_at", "split_at_checked", "get") and "str" in str(x.get("recv_ty", "")) and x["args"] \
+                    and "Vec" not in str(x.get("recv_ty", "")) and "HashMap" not in str(x.get("recv_ty", "")):
+                recv, bound = x["recv"], x["args"][0]
+            if recv is None:
+                continue
+            pv = pv or Prov(f)
+            r0 = _root_local(recv)
+            if r0 is None:
+                continue
+            n += 1
+            srcs = _offset_sources(P, f, pv, bound)
+            key = "str-offset-same-string:%s" % short(f.path)
+            params = {b.get("local") for b in f.params if b.get("k") == "Binding"}
+            # aliases of the sliced string (let t = s; / &*s)
+            alias = {r0}
+            for lid, lst in pv.src.items():
+                for src, _ in lst:
+                    if src is not None and _root_local(src) in alias and src.get("k") in ("Path", "AddrOf", "Unary", "DropTemps"):
+                        alias.add(lid)
+            foreign = {l for l in srcs if l not in alias}
+            if not foreign:
+                # the offset may arrive as a plain number through a parameter (a `skip_bytes(line, n)` helper): then the same question is
+                # asked at every call site, between the argument for the string and the argument for the number
+                pidx = {b.get("local"): i for i, b in enumerate(f.params) if b.get("k") == "Binding"}
+                num_params = [pidx[y["local"]] for y in subnodes(bound) if y.get("k") == "Path" and y.get("local") in pidx
+                              and "usize" in str(f.params[pidx[y["local"]]].get("t", ""))]
+                if r0 in pidx and num_params:
+                    bad_callers = []
+                    for g in P.fns.values():
+                        if g.derived or "::tests" in g.path:
+                            continue
+                        gpv = None
+                        for c in g.walk():
+                            if c.get("k") == "Call" and call_name(c) == f.path and len(c["args"]) == len(f.params):
+                                gpv = gpv or Prov(g)
+                                sroot = _root_local(c["args"][pidx[r0]])
+                                for i in num_params:
+                                    fs = _offset_sources(P, g, gpv, c["args"][i])
+                                    if sroot is not None and any(l != sroot for l in fs):
+                                        bad_callers.append(g.path)
+                    if bad_callers:
+                        R.violated("R08-c", key, "%s cuts its string argument at an offset passed in by %s, where that offset was computed on "
+                                   "another string: it is a char boundary there, not necessarily here — with multi-byte characters the cut "
+                                   "panics" % (f.path, short(bad_callers[0])), loc=f.loc())
+                        continue
+                R.holds("R08-c", key, "cut points are computed on the string they cut", loc=f.loc())
+                continue
+            via_param = [l for l in foreign if l in params]
+            names = sorted({b["name"] for b in f.walk() if b.get("k") == "Binding" and b.get("local") in foreign})
+            if len(via_param) == len(foreign):
+                R.undecided("R08-c", key, "the offset is computed on another parameter (%s); whether it is the same string is the callers' business" % names, loc=f.loc())
+            else:
+                R.violated("R08-c", key, "%s cuts a string at a byte offset that was computed on another string (`%s`): the offset is a char "
+                           "boundary there, not necessarily here — with multi-byte characters (non-ASCII indentation, say) slicing panics and the "
+                           "diagnostic is never printed" % (f.path, ", ".join(names)), loc=f.loc())
+    R.count("str_cut_sites", n)
 
 
 def r08pc(P, R):
